@@ -105,6 +105,10 @@ class GotranPythonCodePrinter(PythonCodePrinter):
             value = f"numpy.logical_or({value}, {self._print(arg)})"
         return value
 
+    def _print_Not(self, expr):
+        # The python operator 'not' does not work on arrays or traced values
+        return f"numpy.logical_not({self._print(expr.args[0])})"
+
     # def _print_Equality(self, expr):
     #     lhs, rhs = expr.args
     #     return f"numpy.isclose({self._print(lhs)}, {self._print(rhs)})"
